@@ -112,7 +112,7 @@ def common_shrinks(scn):
     for gl in drop_each(scn.get("guests", [])):
         yield with_path(scn, ["guests"], gl)
     o = scn["options"]
-    for key in ("solve_twice", "reload_phase", "sibling", "device_restored", "device_moved", "device_derived", "entry", "device_used_before", "options_prior_use", "mesh_reoriented"):
+    for key in ("solve_twice", "reload_phase", "sibling", "device_restored", "device_moved", "device_derived", "entry", "device_used_before", "options_prior_use", "mesh_reoriented", "mesh_shared_with_wellposed", "guests"):
         if scn.get(key):
             s_ = copy.deepcopy(scn)
             s_.pop(key)
